@@ -1,7 +1,7 @@
 import os
 import vlib
 
-THEOREMS = []
+THEOREMS = ["Dispenso.Graph." + t for t in ['C30_execute', 'C30_execute_skips_completed', 'C30_construction_consistent', 'C30_construction_execute', 'C30_setAll_consistent', 'C30_clear', 'C30_clear_then_setAll']]
 PROP = "C30"
 MODULE = "DispensoVerif.Props.C30"
 
